@@ -192,15 +192,19 @@ CfgSame(o, b, named) ==
       po == o.poly  pb == b.poly
       nco == ColIds(po.cols) \cap named
       ncb == ColIds(pb.cols) \cap named
+      vals(f, K) == { f[k] : k \in K }
   IN Fail("dp_same", /\ \A k \in DOMAIN dpo \cap named : k \in DOMAIN dpb /\ dpb[k] = dpo[k]
                      /\ DOMAIN dpo \cap named = DOMAIN dpb \cap named
-                     /\ Bag(dpo, DOMAIN dpo) = Bag(dpb, DOMAIN dpb))
-     \cup Fail("poly_same", /\ nco = ncb /\ Len(po.cols) = Len(pb.cols) /\ Len(po.rows) = Len(pb.rows)
+                     /\ vals(dpo, DOMAIN dpo \ named) = vals(dpb, DOMAIN dpb \ named))
+     \* generated ids depend on how a node was written down (e.g. whether sign was passed), so a round trip may rename,
+     \* merge or split auxiliary columns: compared are the named columns and the solution set projected onto them
+     \cup Fail("poly_same", /\ nco = ncb
                              /\ Len(po.dpv) = Len(po.cols) /\ Len(pb.dpv) = Len(pb.cols)
-                             /\ \A i \in nco : \E j \in DOMAIN po.cols : \E k \in DOMAIN pb.cols :
+                             /\ (\A i \in nco : \E j \in DOMAIN po.cols : \E k \in DOMAIN pb.cols :
                                    po.cols[j].id = i /\ pb.cols[k].id = i /\ po.cols[j].lo = pb.cols[k].lo
-                                   /\ po.cols[j].hi = pb.cols[k].hi /\ po.dpv[j] = pb.dpv[k]
-                             /\ Bag(po.dpv, DOMAIN po.dpv) = Bag(pb.dpv, DOMAIN pb.dpv)
+                                   /\ po.cols[j].hi = pb.cols[k].hi /\ po.dpv[j] = pb.dpv[k])
+                             /\ { po.dpv[c1] : c1 \in { c2 \in DOMAIN po.cols : po.cols[c2].id \notin named } }
+                                = { pb.dpv[c3] : c3 \in { c4 \in DOMAIN pb.cols : pb.cols[c4].id \notin named } }
                              /\ (o.enum /\ b.enum) => { Restr(x, nco) : x \in PolySol(po) } = { Restr(x, ncb) : x \in PolySol(pb) })
 EvJson(e) ==
   LET m == e.model
